@@ -55,11 +55,24 @@ def helper_oracle(res: Result, rng: random.Random, fails: list, n: int):
     node_mod.StoppableThread = _T
     peer_mod.StoppableThread = _T
     try:
-        node = Node("verif.node.example", "verif.realm.example")
+        # two nodes: the one application object is moved from one to the other now and then (an application registered
+        # with another node answers in that node's name from then on)
+        nodes = [Node("verif.node.example", "verif.realm.example"), Node("second.node.example", "second.realm.example")]
+        idents = [(b"verif.node.example", b"verif.realm.example"), (b"second.node.example", b"second.realm.example")]
+        cur = 0
+        node = nodes[cur]
         app = Application(application_id=4, is_auth_application=True)
         app._node = node
         codes = sorted(all_commands)
         for i in range(n):
+            if i > 0 and rng.random() < 0.1:
+                cur ^= 1
+                node = nodes[cur]
+                try:
+                    node.add_application(app, [])      # (the documented way; it binds the application to the node)
+                except Exception:  # noqa
+                    pass
+                app._node = node
             code = rng.choice(codes + [999, 70000])
             flags = rng.choice([0x80, 0xc0, 0x90, 0xd0])
             sid = ("sess;%d" % rng.getrandbits(32)).encode()
@@ -119,7 +132,7 @@ def helper_oracle(res: Result, rng: random.Random, fails: list, n: int):
                     fails.append({"what": f"{who} helper answer does not parse: {ex}", "line": f"HELPER {who} {data.hex()}"})
                     continue
                 have = {(c, v): d for c, v, f, d in got}
-                want = {(264, 0): b"verif.node.example", (296, 0): b"verif.realm.example"}
+                want = {(264, 0): idents[cur][0], (296, 0): idents[cur][1]}
                 if with_sid:
                     want[(263, 0)] = sid
                 elif (263, 0) in have:
